@@ -38,6 +38,8 @@ pub const A_SECTIONS: [(f64, f64, f64, f64, f64, usize); 12] = [
     // section 1 scaled by 0.05
     (0.5, 0.6, 0.02, 0.0075, 0.03, 300),
 ];
+/// reflexed-camber sections: (chord, marker, r0, r1, bump, samples); the second entry only has to be non-zero
+pub const R_SECTIONS: [(f64, f64, f64, f64, f64, usize); 2] = [(1.0, 1.0, 0.02, 0.01, 0.05, 400), (25.0, 1.0, 0.5, 0.3, 1.0, 300)];
 pub const B_SECTIONS: [(f64, f64, usize); 5] = [(20.0, 3.0, 600), (5.0, 1.5, 500), (0.5, 0.08, 400), (10.0, 1.0, 800), (20.0, 2.0, 400)];
 pub const C_SECTIONS: [(f64, f64, f64, f64, f64, usize); 3] = [(10.0, 0.3, 0.4, 0.2, 0.3, 300), (100.0, -0.5, 3.0, 1.5, 4.0, 400), (0.8, 0.0, 0.04, 0.02, 0.0, 200)];
 
@@ -105,6 +107,58 @@ pub fn envelope_section(l: f64, bend: f64, r0: f64, r1: f64, bump: f64, n: usize
         Box::new(move |s: f64| {
             let (c, _, _) = cam(s);
             (c, r(s))
+        }),
+    )
+}
+
+
+/// Envelope of circles along a *reflexed* camber line y = K x (1 - x)(X0 - x) (chord l): a dominant bow
+/// above the chord over the first three quarters, a shallow one below it near the trailing end. Closed, with
+/// round caps. The truth function takes s = x * l.
+pub fn reflex_section(l: f64, r0: f64, r1: f64, bump: f64, n: usize) -> (Vec<Point2>, Truth) {
+    const K: f64 = 0.6;
+    const X0: f64 = 0.75;
+    let cam = move |x: f64| -> (Point2, Vector2, Vector2, f64) {
+        let dy = K * ((1.0 - 2.0 * x) * (X0 - x) - x * (1.0 - x));
+        let nn = (1.0 + dy * dy).sqrt();
+        (Point2::new(l * x, l * K * x * (1.0 - x) * (X0 - x)), Vector2::new(1.0 / nn, dy / nn), Vector2::new(-dy / nn, 1.0 / nn), l * nn)
+    };
+    let r = move |x: f64| r0 + (r1 - r0) * x + bump * (PI * x).sin();
+    let drdx = move |x: f64| (r1 - r0) + bump * PI * (PI * x).cos();
+    let mut upper = Vec::new();
+    let mut lower = Vec::new();
+    for i in 0..=n {
+        let x = i as f64 / n as f64;
+        let (c, t, nn, dsdx) = cam(x);
+        let d = drdx(x) / dsdx;
+        let q = (1.0 - d * d).sqrt();
+        upper.push(c + (t * (-d) + nn * q) * r(x));
+        lower.push(c + (t * (-d) - nn * q) * r(x));
+    }
+    let cap = |center: Point2, rad: f64, from: Point2, to: Point2, m: usize| -> Vec<Point2> {
+        let a0 = (from.y - center.y).atan2(from.x - center.x);
+        let mut a1 = (to.y - center.y).atan2(to.x - center.x);
+        while a1 <= a0 {
+            a1 += 2.0 * PI;
+        }
+        (1..m).map(|i| { let a = a0 + (a1 - a0) * i as f64 / m as f64; Point2::new(center.x + rad * a.cos(), center.y + rad * a.sin()) }).collect()
+    };
+    let h = l / n as f64;
+    let (ce, _, _, _) = cam(1.0);
+    let (cs, _, _, _) = cam(0.0);
+    let m_end = ((PI * r(1.0)) / h).ceil().max(8.0) as usize;
+    let m_st = ((PI * r(0.0)) / h).ceil().max(8.0) as usize;
+    let mut pts = Vec::new();
+    pts.extend(lower.iter().cloned());
+    pts.extend(cap(ce, r(1.0), *lower.last().unwrap(), *upper.last().unwrap(), m_end));
+    pts.extend(upper.iter().rev().cloned());
+    pts.extend(cap(cs, r(0.0), upper[0], lower[0], m_st));
+    (
+        pts,
+        Box::new(move |s: f64| {
+            let x = (s / l).clamp(0.0, 1.0);
+            let (c, _, _, _) = cam(x);
+            (c, r(x))
         }),
     )
 }
@@ -221,11 +275,12 @@ fn judge_common(g: &AirfoilGeometry, sec: &Curve2, l: f64, case: &Case, tag: &st
 fn judge_a(case: &Case, l_: &mut Local) {
     let mk = || serde_json::to_value(case).unwrap();
     let sharp = case.family == "S";
-    let (l, bend, r0, r1, bump, n) = A_SECTIONS[case.section % A_SECTIONS.len()];
-    let (base_pts, truth) = envelope_section(l, bend, r0, r1, bump, n, false, sharp);
+    let reflex = case.family == "R";
+    let (l, bend, r0, r1, bump, n) = if reflex { R_SECTIONS[case.section % R_SECTIONS.len()] } else { A_SECTIONS[case.section % A_SECTIONS.len()] };
+    let (base_pts, truth) = if reflex { reflex_section(l, r0, r1, bump, n) } else { envelope_section(l, bend, r0, r1, bump, n, false, sharp) };
     let tau = 1e-4 * l;
     let h = l / n as f64;
-    l_.bucket(if sharp { "sharp trailing edge" } else if l < 0.5 { "family A, chord below half a unit" } else if l < 1.0 { "family A, chord below one unit" } else { "family A" });
+    l_.bucket(if reflex { "family R (reflexed camber)" } else if sharp { "sharp trailing edge" } else if l < 0.5 { "family A, chord below half a unit" } else if l < 1.0 { "family A, chord below one unit" } else { "family A" });
     l_.bucket(if case.detect_face { "face orientation detected" } else { "face orientation given" });
     let mut reference: Option<Summary> = None;
     let mut outcomes: Vec<bool> = Vec::new();
@@ -348,7 +403,8 @@ fn judge_a(case: &Case, l_: &mut Local) {
                             if case.detect_face {
                                 if bend != 0.0 {
                                     // detected upper side = the side towards which the camber bulges away from its chord
-                                    let want = if bend > 0.0 { um.y < lm.y } else { um.y > lm.y };
+                                    // (for the reflexed camber: the side of its dominant bow, +y)
+                                    let want = if reflex { um.y > lm.y } else if bend > 0.0 { um.y < lm.y } else { um.y > lm.y };
                                     l_.check("upper surface is on the detected side", "", want, mk, || tag.clone());
                                 }
                             } else {
@@ -600,7 +656,7 @@ pub fn judge(case: &Case, l: &mut Local) {
         l.sample(|| serde_json::to_value(case).unwrap());
     }
     match case.family.as_str() {
-        "A" | "S" => judge_a(case, l),
+        "A" | "S" | "R" => judge_a(case, l),
         "B" => judge_b(case, l),
         "K" => judge_k(case, l),
         _ => judge_c(case, l),
@@ -624,6 +680,14 @@ pub fn cases(tier: Tier) -> Vec<Case> {
             }
         }
     }
+    // reflexed (S-shaped) camber: face detection must follow the dominant bow
+    for section in 0..R_SECTIONS.len() {
+        for detect_face in [true, false] {
+            for orient in ["tmax", "dir"] {
+                out.push(Case { family: "R".into(), section, le: "intersect".into(), te: "intersect".into(), orient: orient.into(), detect_face });
+            }
+        }
+    }
     // the tangent-convergence locator on the envelope family (known medial axis)
     for section in 0..na {
         out.push(Case { family: "A".into(), section, le: "converge".into(), te: "intersect".into(), orient: "dir".into(), detect_face: false });
@@ -642,7 +706,11 @@ pub fn cases(tier: Tier) -> Vec<Case> {
     }
     for section in 0..C_SECTIONS.len() {
         for te in ["open", "opengap"] {
-            out.push(Case { family: "C".into(), section, le: "intersect".into(), te: te.into(), orient: "dir".into(), detect_face: false });
+            // the closed leading edge located by intersection and by a fitted radius (which cuts the section
+            // beyond the last station, in either vertex order)
+            for le in ["intersect", "fitradius"] {
+                out.push(Case { family: "C".into(), section, le: le.into(), te: te.into(), orient: "dir".into(), detect_face: false });
+            }
         }
     }
     // open end cut at a skew: 3 sections x 6 skews x {upper, lower} shorter
@@ -656,9 +724,9 @@ pub fn cases(tier: Tier) -> Vec<Case> {
 
 pub fn run(tier: Tier) -> i32 {
     let mut cx = Ctx::new("C10", tier, "exploration");
-    cx.rule = "generated sections with closed-form medial axes: family A = envelope of circles along a circular-arc camber (turning 0, +-0.4..0.6; length 0.3, 0.8, 10, 100; linear + sinusoidal radius laws; 200-400 samples), family B = ellipses (medial axis = focal segment), family C = family A open at the trailing end, family S = family A tapering to a sharp corner, family K = family C with the open end cut at a skew of 0.5 .. 2.5 end radii on either surface; configurations: {TMaxFwd, DirectionFwd} x leading/trailing locators applicable to the family x {detected, given} face orientation; every configuration analysed in 4 poses x {as given, reversed, start rotated, both} (16 variants; B: 12, C: 6) with iteration budgets. distinct = distinct configurations".into();
+    cx.rule = "generated sections with closed-form medial axes: family A = envelope of circles along a circular-arc camber (turning 0, +-0.4..0.6; length 0.3, 0.8, 10, 100; linear + sinusoidal radius laws; 200-400 samples), family B = ellipses (medial axis = focal segment), family C = family A open at the trailing end, family S = family A tapering to a sharp corner, family R = envelope along a reflexed (S-shaped) cubic camber, family K = family C with the open end cut at a skew of 0.5 .. 2.5 end radii on either surface; configurations: {TMaxFwd, DirectionFwd} x leading/trailing locators applicable to the family x {detected, given} face orientation; every configuration analysed in 4 poses x {as given, reversed, start rotated, both} (16 variants; B: 12, C: 6) with iteration budgets. distinct = distinct configurations".into();
     cx.bounds = json!({"family_a_sections": tier.pick(5, A_SECTIONS.len()), "family_b_sections": tier.pick(3, B_SECTIONS.len()), "variants_per_configuration": 16, "iteration_budget": 400000});
-    cx.require(&["family A", "family A, chord below one unit", "family A, chord below half a unit", "face orientation detected", "face orientation given", "family B (ellipse)", "family C (open trailing end)", "sharp trailing edge", "family K (open end cut at a skew)", "configuration accepted", "open edge as the leading locator"]);
+    cx.require(&["family A", "family A, chord below one unit", "family A, chord below half a unit", "face orientation detected", "face orientation given", "family B (ellipse)", "family C (open trailing end)", "sharp trailing edge", "family R (reflexed camber)", "family K (open end cut at a skew)", "configuration accepted", "open edge as the leading locator"]);
     cx.assume("tolerances in units of the analysis tolerance tau = 1e-4 * chord and the sampling step h: inscribed 2 tau, manufactured stations 20 tau, known medial axis 1 (tau + h), variant agreement 8 (tau + h); a configuration may be rejected (Err) but then for every variant alike");
     let cs = cases(tier);
     let l = sweep(&cs, judge);
